@@ -8,7 +8,7 @@
 (*                                                                         *)
 (* IDs are quad strings (A5Digits); strings are sequences of ASCII codes.  *)
 (***************************************************************************)
-EXTENDS A5Compact, A5Hilbert, A5Origins, A5Mesh, A5Lon, TLC
+EXTENDS A5Compact, A5Hilbert, A5Origins, A5Mesh, A5Lon, A5LookupSteps, TLC
 
 IsCanonRes(q, r) == IsQuads(q) /\ Canonical(q) /\ ResOfCanon(q) = r
 
@@ -442,6 +442,19 @@ InstancesOK(e) == NoRepeats(e.addresses)
 
 LookupOK(e) == e.ok /\ IsQuads(e.id) /\ IsCanonRes(e.id, e.res) /\ e.class \in {"deep", "in", "band"}
 \* a point next to an edge/vertex of cell e.id: whoever answers must contain it (C01)
+\* the search loop, step by step (spec/A5LookupSteps.tla): the recorded samples folded through Step must end in the
+\* recorded answer, branch, winning sample and number of distinct estimates
+LookupStepsOK(e) ==
+  IF e.branch = 1 THEN e.ok /\ Len(e.steps) = 0 /\ e.res < 2
+  ELSE LET steps == [i \in 1..Len(e.steps) |-> [id |-> e.cells[e.steps[i].c], dup |-> e.steps[i].dup,
+                                                 pos |-> e.steps[i].pos, rank |-> e.steps[i].rank]]
+           o == Outcome(steps)
+       IN /\ e.ok /\ e.res >= 2 /\ IsQuads(e.answer_id)
+          /\ \A i \in 1..Len(e.cells) : IsCanonRes(e.cells[i], e.res)
+          /\ NoRepeats(e.cells)
+          /\ \A i \in 1..Len(e.steps) : e.steps[i].c \in 1..Len(e.cells) /\ (e.steps[i].tested <=> ~e.steps[i].dup)
+          /\ ~o.bad /\ o.result = e.answer_id /\ o.branch = e.branch /\ o.sample = e.sample /\ Len(o.seen) = e.estimates
+
 Interior1OK(e) == e.ok /\ IsQuads(e.back) /\ IsCanonRes(e.back, e.res) /\ e.back_class \in {"deep", "in", "band"}
 \* the centre of a cell maps back to the cell; so does every point inside by more than the tolerance (C02)
 CentreOK(e) == e.ok /\ e.back = e.id
